@@ -32,9 +32,7 @@ pub fn eval_stream(ctx: &mut Ctx, cw: &[u8], tag: &'static str) {
         if cw.iter().any(|c| *c >= 230) {
             ctx.nontrivial(hash64(cw));
         }
-        if ctx.evaluations % 100_003 == 0 {
-            ctx.sample(|| J::obj().set("api", J::s("decode_data+decode_str")).set("workload", J::s(tag)).set("codewords", J::s(hex(&cw[..cw.len().min(24)]))));
-        }
+        ctx.sample(|| J::obj().set("api", J::s("decode_data+decode_str")).set("workload", J::s(tag)).set("codewords", J::s(hex(&cw[..cw.len().min(24)]))));
     }
 }
 
@@ -50,9 +48,7 @@ pub fn eval_word(ctx: &mut Ctx, r: &Row, word: &[u8], tag: &'static str) {
             let mut key = r.name.as_bytes().to_vec();
             key.extend_from_slice(word);
             ctx.nontrivial(hash64(&key));
-            if ctx.evaluations % 50_021 == 0 {
-                ctx.sample(|| J::obj().set("api", J::s("decode_error")).set("size", J::s(r.name)).set("workload", J::s(tag)).set("word_prefix", J::s(hex(&word[..word.len().min(16)]))));
-            }
+            ctx.sample(|| J::obj().set("api", J::s("decode_error")).set("size", J::s(r.name)).set("workload", J::s(tag)).set("word_prefix", J::s(hex(&word[..word.len().min(16)]))));
         }
     }
 }
